@@ -516,7 +516,9 @@ static void run_c08() {
           Sch rs = version_sch(rv);
           DecResult ref = refdec_bytes(rs, m.bytes.data(), m.bytes.size());
           for (int rig : {R_PED, R_BUF, R_STR, R_BPED}) {
-            if (rig == R_STR && m.max_declared > (1u << 20)) continue;
+            // inflated lengths make the unbounded stream reader allocate (Ensure is a no-op by design); an inflated ENTRY SIZE only
+            // makes it skip, so those mutations are kept for the stream reader too
+            if (rig == R_STR && m.max_declared > (1u << 20) && !(m.kind == MKind::FieldValue && m.role == Role::EntrySize)) continue;
             std::string cid = "C08|w" + std::to_string(wv.index) + "|r" + std::to_string(rv.index) + "|a" + astr(a) + "|" + m.id() + "|" + kRig[rig];
             if (!R.only.empty() && R.only != cid) continue;
             // read the table alone (no sentinel): success must consume exactly the reference decoder's length
@@ -594,7 +596,7 @@ static void run_c08() {
         Sch rs = outer_sch(rv);
         DecResult ref = refdec_bytes(rs, m.bytes.data(), m.bytes.size());
         for (int rig : {R_PED, R_BUF, R_STR, R_BPED}) {
-          if (rig == R_STR && m.max_declared > (1u << 20)) continue;
+          if (rig == R_STR && m.max_declared > (1u << 20) && !(m.kind == MKind::FieldValue && m.role == Role::EntrySize)) continue;
           std::string cid = "C08|nested|w" + std::to_string(wv.index) + "|r" + std::to_string(rv.index) + "|" + m.id() + "|" + kRig[rig];
           if (!R.only.empty() && R.only != cid) continue;
           std::vector<uint8_t> in = m.bytes;
